@@ -1,4 +1,4 @@
-# DERIVED by harness/leaves/C18.py from /tmp/wt/seed-C12-2/src/rsatoolbox - do not edit
+# DERIVED by harness/leaves/C18.py from /tmp/wt/seed-C17-1/src/rsatoolbox - do not edit
 
 def cond_index(k, n_cond, n_part):
     return (k % n_cond)
